@@ -251,9 +251,14 @@ RECURSIVE SumReq(_, _)
 SumReq(a, n) == IF n = 0 THEN 0 ELSE 10 * (a + n - 1) + SumReq(a, n - 1)
 \* consume: (Rc / Arc receivers) the body's last required call is to a required method that itself takes
 \* `self: Rc<Self>` / `Arc<Self>`, handing the pointer on
-DelegateShapes == { sh \in [recv : Recvs, nreq : 0..3, explicit : BOOLEAN, direct : 0..1, ordered : BOOLEAN, shared : BOOLEAN, consume : BOOLEAN] :
+\* generic: the provided method has a type parameter of its own ("method") or belongs to a generic trait ("trait")
+\* weak:    (sole Rc / Arc owner) a Weak observer of the pointer is alive during the call
+DelegateShapes == { sh \in [recv : Recvs, nreq : 0..3, explicit : BOOLEAN, direct : 0..1, ordered : BOOLEAN, shared : BOOLEAN, consume : BOOLEAN,
+                            generic : {"none", "method", "trait"}, weak : BOOLEAN] :
                       /\ (sh.shared => sh.recv \in {"rc", "arc"})
-                      /\ (sh.consume => sh.recv \in {"rc", "arc"} /\ sh.nreq >= 1) }
+                      /\ (sh.consume => sh.recv \in {"rc", "arc"} /\ sh.nreq >= 1)
+                      /\ (sh.weak => sh.recv \in {"rc", "arc"} /\ ~sh.shared /\ sh.direct = 0 /\ ~sh.ordered /\ sh.generic = "none")
+                      /\ (sh.generic # "none" => sh.direct = 0 /\ ~sh.consume /\ ~sh.shared /\ sh.nreq \in {0, 2}) }
 DelegateExpected(sh) ==
   [ret |-> 1000 + SumReq(5, sh.nreq),
    body |-> <<"5", "&s">>,
@@ -285,6 +290,18 @@ Mirrors ==
          <<"futures::AsyncRead", "poll_read_vectored", "prov">>, <<"futures::AsyncSeek", "poll_seek", "req">>,
          <<"futures::AsyncWrite", "poll_write", "req">>, <<"futures::AsyncWrite", "poll_flush", "req">>, <<"futures::AsyncWrite", "poll_close", "req">>,
          <<"futures::AsyncWrite", "poll_write_vectored", "prov">> }
+  \cup { <<"hal::DigitalError", "kind", "req">>, <<"hal::I2cError", "kind", "req">>, <<"hal::PwmError", "kind", "req">>, <<"hal::SpiError", "kind", "req">>,
+         <<"hal::InputPin", "is_high", "req">>, <<"hal::InputPin", "is_low", "req">>,
+         <<"hal::OutputPin", "set_low", "req">>, <<"hal::OutputPin", "set_high", "req">>, <<"hal::OutputPin", "set_state", "prov">>,
+         <<"hal::StatefulOutputPin", "is_set_high", "req">>, <<"hal::StatefulOutputPin", "is_set_low", "req">>, <<"hal::StatefulOutputPin", "toggle", "prov">>,
+         <<"hal::I2c", "transaction", "req">>, <<"hal::I2c", "read", "prov">>, <<"hal::I2c", "write", "prov">>, <<"hal::I2c", "write_read", "prov">>,
+         <<"hal::SetDutyCycle", "max_duty_cycle", "req">>, <<"hal::SetDutyCycle", "set_duty_cycle", "req">>,
+         <<"hal::SetDutyCycle", "set_duty_cycle_fully_off", "prov">>, <<"hal::SetDutyCycle", "set_duty_cycle_fully_on", "prov">>,
+         <<"hal::SetDutyCycle", "set_duty_cycle_fraction", "prov">>, <<"hal::SetDutyCycle", "set_duty_cycle_percent", "prov">>,
+         <<"hal::SpiBus", "read", "req">>, <<"hal::SpiBus", "write", "req">>, <<"hal::SpiBus", "transfer", "req">>,
+         <<"hal::SpiBus", "transfer_in_place", "req">>, <<"hal::SpiBus", "flush", "req">>,
+         <<"hal::SpiDevice", "transaction", "req">>, <<"hal::SpiDevice", "read", "prov">>, <<"hal::SpiDevice", "write", "prov">>,
+         <<"hal::SpiDevice", "transfer", "prov">>, <<"hal::SpiDevice", "transfer_in_place", "prov">> }
 \* the required methods a provided method's upstream body is built on
 Basis(t, m) ==
   CASE t = "Hasher"  -> {"write"}
@@ -293,6 +310,10 @@ Basis(t, m) ==
     [] t = "Seek"    -> {"seek"}
     [] t = "Write"   -> {"write"}
     [] t = "DelayNs" -> {"delay_ns"}
+    [] t = "hal::OutputPin" -> {"set_low", "set_high"}
+    [] t = "hal::StatefulOutputPin" -> {"is_set_low"}          \* and OutputPin::set_state, a provided method of the supertrait
+    [] t \in {"hal::I2c", "hal::SpiDevice"} -> {"transaction"}
+    [] t = "hal::SetDutyCycle" -> IF m = "set_duty_cycle_fully_off" THEN {"set_duty_cycle"} ELSE {"max_duty_cycle", "set_duty_cycle"}
     [] t \in {"tokio::AsyncWrite", "futures::AsyncWrite"} -> {"poll_write"}
     [] t = "futures::AsyncRead" -> {"poll_read"}
     [] OTHER         -> {}
